@@ -25,6 +25,8 @@ def expand(run, names=None):
     for c in carriers:
         if names and c["name"] not in names:
             continue
+        if not names and c.get("on_demand"):
+            continue  # expanded only by the checks that ask for it by name
         d = os.path.join(base, c["name"])
         if os.path.exists(d):
             out[c["name"]] = d
